@@ -1331,9 +1331,11 @@ def c20_task(task):
         variants.append(("valgrind", ("valgrind", "-q", "--error-exitcode=0"), env_with()))
     outs = []
     for name, wrapper, env in variants:
-        st, hs, raw, err = driver.run_script(meta, hists, timeout=900 if name == "valgrind" else 90, wrapper=wrapper, env=env, script_name="script_c20.txt")
+        st, hs, raw, err = driver.run_script(meta, hists, timeout=900 if name == "valgrind" else 40, wrapper=wrapper, env=env, script_name="script_c20.txt")
         if st != "ok":
             _inc(out, "driver-%s-%s" % (name, st.split(":")[0]))
+            if name == "plain":
+                return out  # too heavy for the watchdog: no verdict for this theory
             continue
         outs.append((name, raw))
     if len(outs) < 2:
